@@ -178,3 +178,50 @@ def check_C19(tier):
     rep.assumptions = ['theorems checked by TLC on the spec: ExtrapolationOK (KeptInOrder, NoDuplicates, OnlyPrefixesAdded, LongestFirst, Complete), ReplaceScoped',
                        'grammar: 4 hierarchies sharing prefixes, chains of 1-5 keys, explicit / bare / colliding names, <= MaxEntries entries']
     return rep.finish()
+
+
+def path_family(rep, env, conf, family, tier, what, first_cfg=None, reverse=False, tag=None):
+    def tr(cs):
+        out = []
+        for c in cs:
+            if reverse:
+                c = dict(c, reverse=True)
+            out.append(c)
+        return out
+    calls = K.spec_to_code(rep, env, conf, 'MC_Path', 'MC_Path_%s_%s.cfg' % (family, tier), what, transform=tr)
+    extra = {'SPIL_CONF_JSON': conf}
+    if first_cfg:
+        extra['SPIL_FIRST_CFG'] = first_cfg
+    K.code_to_spec(rep, env, conf, calls, what + ' executed on the implementation', tag=tag or family, extra=extra)
+    return calls
+
+
+@reg
+def check_C05(tier):
+    rep = Report('C05', tier)
+    env = Env()
+    conf = extract_conf(env)
+    calls = path_family(rep, env, conf, 'topath', tier, 'C05 family: value variants of every type x every path configuration (local first)',
+                        first_cfg='local', tag='tp_local')
+    path_family(rep, env, conf, 'topath', tier, 'C05 family, server configuration loaded and asked first', first_cfg='server',
+                reverse=True, tag='tp_server')
+    rep.exhaustive = True
+    rep.guard(len([t for t in rep.cover if t.startswith('topath:')]) >= 12 or not calls, 'fewer than 12 path-bearing types exercised')
+    rep.guard('topath:nopath' in rep.cover and 'topath:untyped' in rep.cover or not calls, 'no-path / untyped case not exercised')
+    rep.assumptions = ['theorems checked by TLC on the spec: RoundTrip (hence injectivity on the family, unambiguous parse), SameUpToRoot',
+                       'every call is made positionally, by keyword, twice, and through Sids built by three other constructors']
+    return rep.finish()
+
+
+@reg
+def check_C06(tier):
+    rep = Report('C06', tier)
+    env = Env()
+    conf = extract_conf(env)
+    calls = path_family(rep, env, conf, 'frompath', tier, 'C06 family: valid paths x lexeme-level edits, both configurations')
+    rep.exhaustive = True
+    for t in ('typed', 'untyped'):
+        rep.guard(any(k.endswith(':' + t) for k in rep.cover) or not calls, 'no %s path exercised' % t)
+    rep.assumptions = ['theorem checked by TLC on the spec: OwnerOnly (a typed result formats back to the path)',
+                       'strict (type, fields) comparison is dropped where the spec finds the parse ambiguous; the owner clause is kept']
+    return rep.finish()
